@@ -132,7 +132,8 @@ def gen(seed, i, tier, force=None):
         if r.chance(0.3):
             o["alpha1"] = r.choice([0.1, -1.0])
     if cls in ("impfile",):
-        kind = r.choice(["exact", "short", "short", "long", "empty", "missing", "onecol", "text", "nan", "hugeline", "dupline", "binary", "newlines"])
+        kinds = ["exact", "short", "short", "long", "empty", "missing", "onecol", "text", "nan", "hugeline", "dupline", "binary", "newlines"]
+        kind = kinds[(i // 12 * 2 + (1 if i % 12 == 9 else 0)) % len(kinds)]       # every kind in every run (stratified, not sampled)
         if force and ":" in force:
             kind = force.split(":")[1]
         o["_impkind"] = kind
@@ -140,7 +141,8 @@ def gen(seed, i, tier, force=None):
             o["VacuumGap"] = 0
         o["Impedance"] = "imp.dat"
     if cls in ("tracking", "mixed"):
-        kind = r.choice(["edges", "outside", "empty", "malformed", "many", "missing"])
+        kinds = ["edges", "outside", "empty", "malformed", "many", "missing"]
+        kind = kinds[(i // 12) % len(kinds)] if cls == "tracking" else r.choice(kinds)
         o["_trkkind"] = kind
         o["tracking"] = "trk.txt"
         o["FPTrack"] = r.randint(0, 3)
@@ -148,13 +150,15 @@ def gen(seed, i, tier, force=None):
             o["DampingTime"] = r.choice([1e-4, 1e-3])
         o["rotations"] = 1.0
     if cls == "startdist":
-        kind = r.choice(["txt_ok", "txt_empty", "txt_malformed", "txt_outside", "h5_same", "h5_smaller", "h5_larger", "h5_rank2", "h5_rank5", "h5_zero_records",
-                         "h5_two_bunch", "h5_garbage", "h5_nonsquare", "unknown_ext", "missing_txt"])
+        kinds = ["txt_ok", "txt_empty", "txt_malformed", "txt_outside", "h5_same", "h5_smaller", "h5_larger", "h5_rank2", "h5_rank5", "h5_zero_records",
+                 "h5_two_bunch", "h5_garbage", "h5_nonsquare", "unknown_ext", "missing_txt", "h5_three_bunch"]
+        idx = i // 12 * 2 + (1 if i % 12 == 10 else 0)
+        kind = kinds[idx % len(kinds)]              # every kind in every run, with one bunch current and (every third round) with several
         if force and ":" in force:
             kind = force.split(":")[1]
         o["_startkind"] = kind
         o["InitialDistStep"] = r.choice([-1, 0, 1, -2, 5])
-        if r.chance(0.35):
+        if (idx // len(kinds)) % 3 == 1:
             # several bucket currents together with a start distribution from a file (which always holds one bunch)
             o["BunchCurrent"] = [round(r.loguniform(1e-4, 2e-3), 7) for _ in range(r.randint(2, 4))]
             o["GridSize"] = r.choice([16, 24, 32])
@@ -241,6 +245,8 @@ def materialise(cls, o, wd, r, tool):
                 core.run_cmd([tool, "mkps", path, "4", "0", "1", str(n), str(n), raw], timeout=60); os.unlink(raw)
             elif k == "h5_two_bunch":
                 mk(4, [1, 2, n, n])
+            elif k == "h5_three_bunch":
+                mk(4, [2, 3, n, n])
             elif k == "h5_nonsquare":
                 mk(4, [1, 1, n, max(2, n // 2)])
             elif k == "h5_garbage":
@@ -334,7 +340,7 @@ def run(ctx):
     ctx.rule = ("case = one run of the real program in the ASan/UBSan build (a sampled subset again under valgrind memcheck) from one of the generator classes: grid (size 4..300, orders, stencils, FP types, shifts up to n/3, padding 0.5..9, rounding), "
                 "buckets (2-6 buckets with empty ones, spacing from nearly touching upward with every fractional part, with/without rounding; a third touching with a spacing that rounds up to the next cell, 5-6 buckets, first and last occupied, no rounding of the padded length), rf (models x noise x modulation), kicks (1..13 steps per period: kicks beyond the grid), "
                 "impfile (exact/short/long/empty/missing/one column/text/NaN tokens/huge line numbers/duplicates/binary), tracking (edge, outside, empty, malformed, many, missing), "
-                "startdist (.txt ok/empty/malformed/outside; .h5 same/smaller/larger/rank 2/rank 5/zero records/two bunches/non-square/garbage; unknown extension; a third together with 2-4 bucket currents); distinct by option set and file kind")
+                "startdist (.txt ok/empty/malformed/outside; .h5 same/smaller/larger/rank 2/rank 5/zero records/two and three bunches/non-square/garbage; unknown extension; every kind with one bunch current and, every third round, with 2-4 bucket currents; file kinds are cycled through, not sampled); distinct by option set and file kind")
     th = ctx.tier == "thorough"
     n = 6000 if th else 360
     nmem = 240 if th else 16
@@ -381,4 +387,4 @@ def run(ctx):
     ctx.min_events = {}
     c17_fuzz.run(ctx)
     ctx.min_events.update({"runs.asan": n * 3 // 4, "runs.memcheck": nmem // 2, "runs_that_finished": n // 3,
-                      "class.grid": 20, "class.buckets": 10, "class.impfile": 20, "class.startdist": 20, "class.tracking": 10, "class.kicks": 10, "class.rf": 10, "filekind.roundup": 4, "start_files_with_several_bucket_currents": 4})
+                      "class.grid": 20, "class.buckets": 10, "class.impfile": 20, "class.startdist": 20, "class.tracking": 10, "class.kicks": 10, "class.rf": 10, "filekind.roundup": 4, "start_files_with_several_bucket_currents": 4, "filekind.h5_two_bunch": 1, "filekind.h5_two_bunch+buckets": 1, "filekind.short": 2, "filekind.edges": 2})
